@@ -14,6 +14,12 @@ import (
 
 // AwaitConnect waits until a pair is selected.
 func (a *Agent) AwaitConnect(ctx context.Context) error {
+	// A closed agent is not connected, even if it once was: report it first, the select
+	// below would pick at random between the closed loop and the old connected signal.
+	if err := a.loop.Err(); err != nil {
+		return err
+	}
+
 	select {
 	case <-a.loop.Done():
 		return a.loop.Err()
